@@ -319,7 +319,24 @@ def native_bounded_phase(prop, natives, units, features, res, known_by_ob=None, 
                       tier=o.get("tier", "quick"), status="undecided", reason="", time_s=None, stubs=[], plumbing=False,
                       for_obligation=None)
         if not m:
-            rec["reason"] = "native bounded check did not run (build failure?)"
+            # a stack overflow (or another fatal signal) aborts the whole test process: no result line is printed. The
+            # native boxes name their helper threads after the obligation, so the runtime's message attributes it.
+            ab = re.search(r"thread '[^']*verif_native_%s[^']*'(?: \(\d+\))? has overflowed its stack" % re.escape(o["name"]), out)
+            if ab:
+                rec["status"] = "failed"
+                rec["reason"] = "the native stack overflowed and the process was aborted: " + ab.group(0)
+                replay_path = os.path.join(REPLAY_DIR, "%s-%s.json" % (cid, o["name"]))
+                tname = "verif_native_%s" % o["name"]
+                code = "#[test]\nfn %s() {\n    %s();\n}" % (tname, o["name"])
+                dump_json(replay_path, {"property": cid, "obligation": o["name"], "statement": o.get("stmt", ""),
+                                        "function": o.get("fn", ""), "backend": "native (rustc, debug profile) enumerated box",
+                                        "unit": os.path.relpath(o["_unit"].path, VERIF), "harness": o["_full"],
+                                        "features": features, "concrete_playback_test": code, "test_name": tname,
+                                        "failing_input": rec["reason"],
+                                        "native_replay": {"reproduced": True, "output_tail": tail(shown, 6000)}})
+                res.violations.append((o["name"], replay_path, ""))
+                continue
+            rec["reason"] = "native bounded check did not run (build failure, or the test process was aborted by another test)"
             res.undecided.append((o["name"], rec["reason"] + ": " + tail(out, 800)))
             continue
         if m.group(1) == "ok":
